@@ -236,9 +236,30 @@ fn remove<D: Q>(d: &D, ps: &[(usize, usize)]) -> Vec<V> {
     vec![V::L(rs)]
 }
 
+/// `q_cyclewalks <repr> [ids] <len> [positions]`: the directed cycle over `ids` and the closed walks of
+/// `len` vertices around it — one without a break, one per position `p` whose ONLY non-arc is the
+/// pair `(p, p+1)`. Compact form of `q_walks` for very long walks (both sides expand it).
+fn cyclewalks_desc(repr: &str, ids: &[usize]) -> Desc {
+    let m = ids.len();
+    let arcs: Vec<(usize, usize)> = (0..m).map(|i| (ids[i], ids[(i + 1) % m])).collect();
+    let verts = if repr == "am" { ids.to_vec() } else { (0..m).collect() };
+    plain(repr, verts, arcs)
+}
+
 pub fn eval(op: &str, args: &[V]) -> Option<Vec<V>> {
     if !op.starts_with("q_") {
         return None;
+    }
+    if op == "q_cyclewalks" {
+        let [repr, ids, len, ps] = args else { return None };
+        let (repr, ids, len, ps) = (repr.as_atom()?, ids.as_usizes()?, len.as_usize()?, ps.as_usizes()?);
+        if ids.len() < 4 || len < 2 || len > 1 << 22 || (repr != "am" && ids.iter().enumerate().any(|(i, &x)| i != x)) {
+            return None;
+        }
+        let desc = cyclewalks_desc(repr, &ids);
+        let mut ws = vec![cycle_walk(&ids, len, None)];
+        ws.extend(ps.iter().map(|&p| cycle_walk(&ids, len, Some(p))));
+        return Some(crate::with_digraph!(&desc, d => framed(&d, |d| walks(d, &ws))));
     }
     let desc = Desc::parse(args.first()?)?;
     let ids_at = |i: usize| args.get(i).and_then(V::as_usizes);
@@ -304,9 +325,11 @@ fn probe_ids(rng: &mut Rng, d: &Desc, cap: usize) -> Vec<usize> {
     } else {
         let mut s = d.verts.clone();
         let mx = d.verts.iter().copied().max().unwrap_or(0);
-        for x in [0, 1, 5, mx + 1, mx + 7] {
-            if !s.contains(&x) {
-                s.push(x);
+        for x in [Some(0), Some(1), Some(5), mx.checked_add(1), mx.checked_add(7), Some(usize::MAX)] {
+            if let Some(x) = x {
+                if !s.contains(&x) {
+                    s.push(x);
+                }
             }
         }
         s
@@ -353,11 +376,13 @@ fn gen_walks(rng: &mut Rng, d: &Desc) -> Vec<Vec<usize>> {
     let u = vs[rng.below(n)];
     ws.push(vec![u, u]);
     let mx = vs.iter().copied().max().unwrap_or(0);
+    // an id outside V (maps whose largest key is usize::MAX: a gap below it)
+    let outside = |k: usize| mx.checked_add(k).unwrap_or_else(|| (0..).find(|x| !vs.contains(x)).unwrap());
     let mut w = follow(rng, 5);
-    w.push(mx + 1); // ends outside V
+    w.push(outside(1)); // ends outside V
     ws.push(w);
     let mut w = follow(rng, 5);
-    w.insert(0, mx + 2); // starts outside V
+    w.insert(0, outside(2)); // starts outside V
     ws.push(w);
     let mut w = follow(rng, 6);
     w.reverse(); // reversed valid walk
@@ -393,7 +418,9 @@ fn emit_all(rng: &mut Rng, d: &Desc, emit: &mut dyn FnMut(String)) {
     let ws = show_walks(&gen_walks(rng, d));
     // remove_arc is total: present arcs, absent arcs, ids outside V
     let mx = d.verts.iter().copied().max().unwrap_or(0);
-    let mut ps: Vec<(usize, usize)> = vec![(mx + 1, 0), (0, mx + 1), (mx + 1, mx + 2), (1 << 40, 0)];
+    let out1 = mx.checked_add(1).unwrap_or(mx / 3);
+    let out2 = mx.checked_add(2).unwrap_or(mx / 3 + 1);
+    let mut ps: Vec<(usize, usize)> = vec![(out1, 0), (0, out1), (out1, out2), (1 << 40, 0), (usize::MAX, 0)];
     for _ in 0..3 {
         ps.push((d.verts[rng.below(n)], d.verts[rng.below(n)]));
         if !d.arcs.is_empty() {
@@ -415,7 +442,166 @@ fn emit_all(rng: &mut Rng, d: &Desc, emit: &mut dyn FnMut(String)) {
     }
 }
 
+// ---------------------------------------------------------------------------------------
+// out-of-distribution cases (round 2): large orders for the threaded degree_sequence, very long
+// walks with exactly one non-arc, AdjacencyMap ids next to usize::MAX
+// ---------------------------------------------------------------------------------------
+
+fn plain(repr: &str, verts: Vec<usize>, arcs: Vec<(usize, usize)>) -> Desc {
+    let k = arcs.len();
+    Desc { repr: repr.to_string(), verts, arcs, weights: (0..k).map(|i| (i as i128) % 7 + 1).collect() }
+}
+
+/// Sparse arc sets on `0..n` whose arcs LEAVE the trailing rows (a dropped trailing chunk of rows
+/// changes the indegree part of `degree_sequence`): circuit, in-star, tail rows -> random heads.
+fn large_sparse(rng: &mut Rng, n: usize, shape: usize) -> Vec<(usize, usize)> {
+    match shape {
+        0 => (0..n).map(|u| (u, (u + 1) % n)).collect(),
+        1 => (1..n).map(|u| (u, 0)).collect(),
+        _ => {
+            let mut set = std::collections::BTreeSet::new();
+            for u in n.saturating_sub(70)..n {
+                for _ in 0..3 {
+                    let v = rng.below(n);
+                    if v != u {
+                        let _ = set.insert((u, v));
+                    }
+                }
+            }
+            for _ in 0..n / 2 {
+                let (u, v) = (rng.below(n), rng.below(n));
+                if u != v {
+                    let _ = set.insert((u, v));
+                }
+            }
+            let mut a: Vec<_> = set.into_iter().collect();
+            rng.shuffle(&mut a);
+            a
+        }
+    }
+}
+
+/// A closed walk around the directed cycle on `ids` of exactly `len` vertices; when `brk = Some(p)`
+/// the pair at positions `(p, p+1)` is the ONLY non-arc (the walk jumps two steps ahead there).
+fn cycle_walk(ids: &[usize], len: usize, brk: Option<usize>) -> Vec<usize> {
+    let m = ids.len();
+    let mut w = Vec::with_capacity(len);
+    let mut k = 0usize;
+    for i in 0..len {
+        w.push(ids[k % m]);
+        k += if Some(i) == brk { 2 } else { 1 };
+    }
+    w
+}
+
+/// Chunk-boundary positions of a walk of `len` vertices for every thread count 2..=16
+/// (`chunks(ceil(len/t))`, `chunks(len/t)`), first and last boundary of each, plus a few random ones.
+fn boundary_positions(rng: &mut Rng, len: usize, all_counts: bool) -> Vec<usize> {
+    let mut ps = std::collections::BTreeSet::new();
+    let counts: &[usize] = if all_counts { &[2, 3, 4, 5, 8, 13, 16] } else { &[3, 16] };
+    for &t in counts {
+        for c in [len.div_ceil(t), len / t] {
+            if c >= 2 {
+                let last = (len - 1) / c; // index of the last chunk
+                for k in [1, last] {
+                    if k >= 1 && k * c < len {
+                        let _ = ps.insert(k * c - 1);
+                    }
+                }
+            }
+        }
+    }
+    for _ in 0..3 {
+        let _ = ps.insert(rng.below(len - 1));
+    }
+    let _ = ps.insert(0);
+    let _ = ps.insert(len - 2);
+    ps.into_iter().collect()
+}
+
+fn long_walk_line(rng: &mut Rng, repr: &str, ids: &[usize], len: usize, all_counts: bool) -> String {
+    let ps = boundary_positions(rng, len, all_counts);
+    format!("q_cyclewalks {repr} {} {len} {}", V::us(ids.iter().copied()), V::us(ps))
+}
+
+const HUGE: [usize; 5] = [0, 7, usize::MAX / 2, usize::MAX - 1, usize::MAX];
+
+/// AdjacencyMap digraphs whose ids include `usize::MAX`, `MAX-1`, `MAX/2`: every op group.
+fn extreme_id_maps(rng: &mut Rng, count: usize, emit: &mut dyn FnMut(String)) {
+    for i in 0..count {
+        let mut ids: Vec<usize> = HUGE.to_vec();
+        if i % 3 == 1 {
+            ids = vec![usize::MAX - 2, usize::MAX - 1, usize::MAX];
+        } else if i % 3 == 2 {
+            ids.push(usize::MAX / 2 + 1);
+            ids.sort_unstable();
+        }
+        let n = ids.len();
+        let (_, arcs) = graphs::gen_arcs(rng, n);
+        let arcs: Vec<(usize, usize)> = arcs.into_iter().map(|(u, v)| (ids[u], ids[v])).collect();
+        let d = plain("am", ids, arcs);
+        let dv = d.to_v();
+        let vids = V::us(probe_ids(rng, &d, 64));
+        emit(format!("q_global {dv}"));
+        emit(format!("q_degseq {dv}"));
+        emit(format!("q_vertex {dv} {vids}"));
+        emit(format!("q_pairs {dv} {vids}"));
+        emit(format!("q_walks {dv} {}", show_walks(&gen_walks(rng, &d))));
+        let mut ps: Vec<(usize, usize)> = vec![(usize::MAX, 0), (1, usize::MAX), (usize::MAX, usize::MAX - 1)];
+        ps.extend(d.arcs.iter().take(3).copied());
+        emit(format!("q_remove {dv} {}", V::pairs(ps)));
+    }
+}
+
+/// The stress stream (only generated when a tie is broken and a failing input is searched for).
+/// Most promising first; whole stream ~ 20 s of harness + driver time per thread mask.
+fn gen_stress(rng: &mut Rng, emit: &mut dyn FnMut(String)) {
+    // (1) the threaded degree_sequence far above the thread count: 256-row thresholds and beyond
+    for &n in &[257usize, 300, 513, 770, 1030, 192, 255, 256, 511, 600, 777, 1100] {
+        for shape in 0..3 {
+            let d = plain("al", (0..n).collect(), large_sparse(rng, n, shape));
+            emit(format!("q_degseq {}", d.to_v()));
+        }
+    }
+    // (2) ids next to usize::MAX
+    extreme_id_maps(rng, 6, emit);
+    // (3) very long walks with exactly one non-arc at (every thread count's) chunk boundaries
+    let sparse: [usize; 6] = [2, 3, 11, 64, 65, 1000];
+    for &len in &[4096usize, 5000, 10007, 4097, 8192, 4095, 65536] {
+        emit(long_walk_line(rng, "am", &sparse, len, true));
+    }
+    emit(long_walk_line(rng, "am", &[0, 7, usize::MAX / 2, usize::MAX - 1, usize::MAX], 4096, true));
+    for repr in ["al", "mx", "el", "wu", "wi"] {
+        for &len in &[4096usize, 10007] {
+            emit(long_walk_line(rng, repr, &[0, 1, 2, 3, 4], len, true));
+        }
+    }
+    // (4) the other sequences / global queries on large sparse digraphs, every cheap representation
+    for &n in &[300usize, 513, 1030] {
+        for repr in ["al", "am", "el", "wu"] {
+            let d = plain(repr, (0..n).collect(), large_sparse(rng, n, 2));
+            emit(format!("q_global {}", d.to_v()));
+        }
+    }
+}
+
+/// Cheap out-of-distribution cases that run in EVERY tier (after the regular stream).
+fn gen_ood(rng: &mut Rng, emit: &mut dyn FnMut(String)) {
+    for &n in &[257usize, 300, 513] {
+        let shape = rng.below(3);
+        let d = plain("al", (0..n).collect(), large_sparse(rng, n, shape));
+        emit(format!("q_degseq {}", d.to_v()));
+    }
+    extreme_id_maps(rng, 2, emit);
+    emit(long_walk_line(rng, "am", &[2, 3, 11, 64, 65, 1000], 4096, false));
+    emit(long_walk_line(rng, "al", &[0, 1, 2, 3, 4], 4096, false));
+}
+
 pub fn gen(rng: &mut Rng, thorough: bool, emit: &mut dyn FnMut(String)) {
+    if crate::stress() {
+        gen_stress(rng, emit);
+        return;
+    }
     if thorough {
         // exhaustive small scope: every digraph on <= 3 vertices, every representation
         for n in 1usize..=3 {
@@ -461,4 +647,5 @@ pub fn gen(rng: &mut Rng, thorough: bool, emit: &mut dyn FnMut(String)) {
     for d in &descs {
         emit_all(rng, d, emit);
     }
+    gen_ood(rng, emit);
 }
